@@ -94,7 +94,8 @@ pub fn base_config(handle: &Handle, seed: u64, i: usize, knobs: &Value) -> Confi
         max_parallel_dials: knobs["max_parallel_dials"].as_u64().unwrap_or(8) as usize,
     };
     let mut b = ConfigBuilder::new()
-        .with_keypair(keypair(seed, i))
+        // "identity": another node's key pair (two hosts, one peer id: a restarted or re-homed peer)
+        .with_keypair(keypair(seed, knobs["identity"].as_u64().map(|x| x as usize).unwrap_or(i)))
         .with_executor(Arc::new(SimExecutor { node: i, handle: handle.clone() }))
         .with_tcp(tcp)
         .with_keep_alive_timeout(ms(knobs, "keep_alive_ms", 5_000));
